@@ -1005,3 +1005,55 @@ def c15_r17(ctx):
                    loc=ctx.nodeloc(f, x))
     if n == 0:
         ctx.ob("whoosh.query", True, "no rewrite reads the boost of a foreign sub-query")
+
+
+def _nullquery_filters(func):
+    """statements of func that drop NullQuery elements from a collection of sub-queries"""
+    out = []
+    for x in ast.walk(func.node):
+        if isinstance(x, (ast.ListComp, ast.GeneratorExp, ast.SetComp)):
+            for gen in x.generators:
+                for cond in gen.ifs:
+                    t = norm.canon(cond)
+                    if "NullQuery" in t and isinstance(x.elt, ast.Name) and x.elt.id in norm.names_in(gen.target):
+                        out.append(x)
+        elif isinstance(x, ast.Call) and norm.call_name(x) == "filter" and "NullQuery" in norm.canon(x):
+            out.append(x)
+        elif isinstance(x, ast.If) and "NullQuery" in norm.canon(x.test) and x.body and isinstance(x.body[-1], ast.Continue) and \
+                isinstance(x.test, ast.Compare) and isinstance(x.test.ops[0], (ast.Is, ast.Eq)):
+            out.append(x)
+    return out
+
+
+@rule("C15", "R18", "K6", "only a disjunction may drop a clause that matches nothing",
+      min_instances=1,
+      clause="NullQuery is the query that matches no document.  Dropping it from the clauses of a disjunction changes nothing; dropping "
+             "it from anything that requires ALL its clauses (a Sequence, an Ordered, a span-near, a phrase of sub-queries) turns a "
+             "query that matches nothing into one that matches the remaining clauses.  Outside CompoundQuery.normalize (whose one "
+             "filter is judged by C15-R3) every statement of whoosh.query that filters NullQuery elements out of a collection lies "
+             "in a class whose matcher is a union (Or, DisjunctionMax, SpanOr).  Expected count on the tree: zero sites outside; the "
+             "detector is checked against CompoundQuery.normalize's own filter on every run.")
+def c15_r18(ctx):
+    prog = ctx.prog
+    cq = prog.method("query.compound.CompoundQuery", "normalize", inherited=False)
+    if not _nullquery_filters(cq):
+        raise AnalysisError("C15-R18 detector does not see the NullQuery filter of CompoundQuery.normalize")
+    ctx.saw(cq)
+    disj = set()
+    for nm in ("query.compound.Or", "query.compound.DisjunctionMax", "query.spans.SpanOr"):
+        try:
+            disj |= set(c.qualname for c in prog.subclasses(prog.cls(nm), strict=False))
+        except AnalysisError:
+            pass
+    n = 0
+    for f in sorted(prog.functions.values(), key=lambda f_: f_.qualname):
+        if not f.module.name.startswith("whoosh.query") or f is cq:
+            continue
+        n += 1
+        for x in _nullquery_filters(f):
+            ok = f.cls is not None and f.cls.qualname in disj
+            ctx.ob(f, ok, "NullQuery clauses are dropped only from a disjunction",
+                   detail="" if ok else "`%s` removes the clause that matches nothing from %s, which needs all of its clauses: the "
+                   "rewritten query matches what the remaining clauses match" % (norm.canon(x)[:90], f.cls.name if f.cls else f.name),
+                   loc=ctx.nodeloc(f, x))
+    ctx.ob("whoosh.query", True, "%d functions of the query package examined for NullQuery filters" % n)
